@@ -589,9 +589,81 @@ def fam_measure(res, s, v, what, n):
 # ============================================================================================
 #  R-C05-4 xfmBounds
 # ============================================================================================
+def corner_image(t, m, b):
+    """selector triple if t is xfmPoint(m, corner of b) (corner: b.lower / b.upper / vec(b.S.x, b.S.y, b.S.z)), else None"""
+    if not (t[0] == 'call' and t[1] == 'xfmPoint' and len(t[2]) == 2 and t[2][0] == m):
+        return None
+    c = all_conv(t[2][1])
+    if c[0] == 'm' and c[1] == b and c[2] in (LO, HI):
+        return (c[2],) * 3
+    if c[0] == 'ctor' and len(c[2]) == 3:
+        sel = []
+        for k, a in enumerate(c[2]):
+            a = all_conv(a)
+            if a[0] == 'm' and a[1][0] == 'm' and a[1][1] == b and a[1][2] in (LO, HI) and a[2] == COMPS[k]:
+                sel.append(a[1][2])
+            else:
+                return None
+        return tuple(sel)
+    return None
+
+
+def member_paths(t, root, acc):
+    """all maximal member-access paths rooted at `root` that occur in t, as dotted strings"""
+    if not isinstance(t, tuple) or not t:
+        return
+    if t[0] == 'm':
+        path, x = [], t
+        while x[0] == 'm':
+            path.append(x[2])
+            x = x[1]
+        if x == root:
+            acc.add('.'.join(reversed(path)))
+            return
+    if t == root:
+        acc.add('')
+        return
+    for x in t:
+        if isinstance(x, tuple):
+            member_paths(x, root, acc)
+
+
+OFF_DIAGONAL = {'l.vx.y', 'l.vx.z', 'l.vy.x', 'l.vy.z', 'l.vz.x', 'l.vz.y'}
+
+
+def early_return(res, s, v, guard, value, m, b):
+    """a guarded `return <box>` before the corner fold.  True if a verdict was recorded."""
+    names = s.names
+    val = value
+    if val[0] == 'ctor' and len(val[2]) == 2:
+        P, Q = corner_image(all_conv(val[2][0]), m, b), corner_image(all_conv(val[2][1]), m, b)
+        if P is not None and Q is not None:
+            used = set()
+            member_paths(guard, m, used)
+            order = []
+            subst(guard, lambda x: order.append(x) if (x[0] == 'b' and x[1] in ('<', '>', '<=', '>=')) else None)
+            if used <= OFF_DIAGONAL and not order and not unknowns(guard):
+                res.bad(R4, 'xfmBounds: a return path (taken when `%s`) builds the result directly as box(%s, %s) from %d corner '
+                            'image(s) instead of folding all 8 corner images with extend; the guard does not constrain the sign of '
+                            'the diagonal of the linear part, so for a mirroring transform the image of `lower` is the larger '
+                            'coordinate and the returned box (lower > upper) contains no image point' % (
+                                show(guard, names)[:160], show(val[2][0], names), show(val[2][1], names), len({P, Q})),
+                        'early-return-two-corners')
+                return True
+    res.und(R4, 'xfmBounds: an additional return path (when `%s`) returns `%s`, which is not the extend-fold of the 8 corner '
+                'images; its containment of the image is not decided' % (show(guard, names)[:120], show(value, names)[:160]))
+    return True
+
+
 def fam_xfmbounds(res, s, v):
     names = s.names
-    body = v.body()
+    body = list(v.body())
+    mi0, bi0 = s.kinds.index('affine'), s.kinds.index('range')
+    # guarded early returns in front of the fold
+    while body and body[0][0] == 'if' and not body[0][3] and len(body[0][2]) == 1 and body[0][2][0][0] == 'ret' \
+            and body[0][2][0][1] is not None:
+        early_return(res, s, v, body[0][1], body[0][2][0][1], ('p', mi0), ('p', bi0))
+        body = body[1:]
     if not body or body[0][0] != 'decl':
         res.und(R4, 'xfmBounds: does not start by declaring the result box')
         return
@@ -653,15 +725,196 @@ def fam_xfmbounds(res, s, v):
                     'of the box' % (len(missing), ', '.join('(%s)' % ','.join(x) for x in missing[:3]),
                                     '; duplicated %s' % ', '.join('(%s)' % ','.join(x) for x in dup) if dup else ''), 'corner-set')
         return
+    if any(it[0] != 'ok' for it in res.items):
+        return
     res.ok(R4, 'xfmBounds: empty box extended by xfmPoint(m, .) of all 8 corners (lower|upper)^3, components in their own slots')
 
 
 # ============================================================================================
 #  R-C05-5 intersectRayBox
 # ============================================================================================
-def fam_raybox(res, s, v):
+ZERO = ('lit', Fraction(0))
+
+
+def sign_predicate(t, x):
+    """('order', formula over x vs 0) | ('signbit', negated?) | None for a Boolean term that tests the sign of x"""
+    t = all_conv(t)
+    neg = False
+    while t[0] == 'u' and t[1] == '!':
+        neg = not neg
+        t = t[2]
+    if t[0] == 'call' and t[1] == 'signbit' and len(t[2]) == 1 and all_conv(t[2][0]) == x:
+        return ('signbit', neg)
+    if t[0] == 'b' and t[1] in ('<', '>', '<=', '>=') and {all_conv(t[2]), all_conv(t[3])} == {x, ZERO}:
+        f = ('b', t[1], all_conv(t[2]), all_conv(t[3]))
+        return ('order', ('u', '!', f) if neg else f)
+    return None
+
+
+def rcp_safe_policy(tu):
+    """when is rcp_safe(x) negative?  -> (kind, payload, description) from the body of rcp_safe_t / rcp_safe in rkmath.h:
+    ('order', formula over x vs 0) for `x >= 0 ? m : -m`, ('signbit', False) for copysign(m, x); None if not recognised"""
+    fns = [f for f in tu.functions.values() if f['q'] == 'rkcommon::math::rcp_safe_t' and f['dep']]
+    if len(fns) != 1:
+        return None, 'rcp_safe_t pattern not found'
+    f = fns[0]
+    v = FnView(tu, f)
+    t = single_return(v)
+    x = ('p', 0)
+    if t is None or not (t[0] == 'call' and t[1] == 'rcp' and len(t[2]) == 1):
+        return None, 'rcp_safe_t is not `return rcp(...)`'
+    a = all_conv(t[2][0])
+    if not (a[0] == '?:' and all_conv(a[3]) == x):
+        return None, 'argument of rcp is not `tiny ? replacement : x`'
+    tiny, sel = all_conv(a[1]), all_conv(a[2])
+    if not (tiny[0] == 'b' and tiny[1] in ('<', '<=') and tiny[2] == ('call', 'abs', (x,))):
+        return None, 'tiny-argument test not recognised: %s' % show(tiny, ['x'])
+    mval = tiny[3]
+    negm = ('u', '-', mval)
+    if sel[0] == 'call' and sel[1] == 'copysign' and len(sel[2]) == 2 and all_conv(sel[2][1]) == x and all_conv(sel[2][0]) == mval:
+        return ('signbit', False, 'copysign(min, x): negative exactly when the sign bit of x is set (also for -0.0)'), None
+    if sel[0] == '?:' and {all_conv(sel[2]), all_conv(sel[3])} == {mval, negm}:
+        sp = sign_predicate(sel[1], x)
+        if sp is None:
+            return None, 'sign selector of rcp_safe_t not recognised: %s' % show(sel[1], ['x'])
+        kind, payload = sp
+        neg_branch_is_then = all_conv(sel[2]) == negm
+        if kind == 'order':
+            fm = payload if neg_branch_is_then else ('u', '!', payload)
+            return ('order', fm, '`%s`: negative exactly when %s' % (show(sel, ['x']), show(fm, ['x']))), None
+        sb_neg = payload if neg_branch_is_then else (not payload)
+        if sb_neg:
+            return None, 'rcp_safe_t gives the replacement the opposite sign bit'
+        return ('signbit', False, 'signbit(x) selects -min'), None
+    return None, 'replacement value of rcp_safe_t not recognised: %s' % show(sel, ['x'])
+
+
+def forwards_to_rcp_safe_t(tu):
+    for f in tu.functions.values():
+        if f['q'] == 'rkcommon::math::rcp_safe' and tu.fn_file(f) == 'rkcommon/math/rkmath.h':
+            t = single_return(FnView(tu, f))
+            if not (t is not None and t[0] == 'call' and t[1] == 'rcp_safe_t' and t[2] == (('p', 0),)):
+                return False
+    return True
+
+
+def raybox_sign_ordered(res, s, v, tu):
+    """the slab idiom with near/far selected per axis by a sign test on dir instead of min/max.  True if handled."""
+    names = s.names
+    b = v.body()
+    if not (len(b) == 4 and b[0][0] == 'decl' and b[1][0] == 'decl' and b[2][0] == 'for' and b[3][0] == 'ret'):
+        return False
+    org, dirp, box, tr = ('p', 0), ('p', 1), ('p', 2), ('p', 3)
+    cm = lambda x: commute(strip_casts(x, pred=lambda ty: not ty.startswith('vec_t<')), ops=('*',), calls=())
+
+    def slab(bound):
+        return cm(('b', '*', ('b', '-', M(box, bound), org), ('call', 'rcp_safe', (dirp,))))
+    nN, nF = b[0][1], b[1][1]
+    VN, VF = ('v', nN), ('v', nF)
+    which = {}
+    for nm, init in ((nN, b[0][2]), (nF, b[1][2])):
+        hit = [bd for bd in (LO, HI) if cm(init) == slab(bd)]
+        if not hit:
+            return False
+        which[nm] = hit[0]
+    if {which[nN], which[nF]} != {LO, HI}:
+        return False
+    ini, cond, inc, lb = b[2][1], b[2][2], b[2][3], b[2][4]
+    if not (len(ini) == 1 and ini[0][0] == 'decl' and all_conv(ini[0][2]) == ZERO):
+        return False
+    I = ('v', ini[0][1])
+    n = s.params[0]['sh']['n']
+    bound = ('lit', Fraction(n)) if isinstance(n, int) else ('tp', n)
+    if all_conv(cond) != ('b', '<', I, bound) or inc not in (('u', 'post++', I), ('u', '++', I)):
+        return False
+    if not (len(lb) == 1 and lb[0][0] == 'if' and not lb[0][3] and len(lb[0][2]) == 1 and lb[0][2][0][0] == 'expr'):
+        return False
+    sw = lb[0][2][0][1]
+    if not (sw[0] == 'call' and sw[1] == 'swap' and set(sw[2]) == {('idx', VN, I), ('idx', VF, I)}):
+        return False
+    d_i = ('idx', dirp, I)
+    sp = sign_predicate(lb[0][1], d_i)
+    if sp is None:
+        res.und(R5, 'intersectRayBox: per-axis swap condition `%s` is not a sign test on dir[i]' % show(lb[0][1], names))
+        return True
+    # the returned range: which variable is joined with which bound of tRange under which reduction
+    t = b[3][1]
+    if not (t[0] == 'ctor' and len(t[2]) == 2):
+        return False
+    sides = []
+    for side in t[2]:
+        x = strip_casts(side, pred=lambda ty: not ty.startswith('vec_t<'))
+        if not (x[0] == 'call' and x[1] in ('reduce_max', 'reduce_min') and len(x[2]) == 1 and x[2][0][0] == 'ctor' and len(x[2][0][2]) == 2):
+            return False
+        sides.append((x[1], x[2][0][2][0], x[2][0][2][1]))
+    problems = []
+    (r0, v0, j0), (r1, v1, j1) = sides
+    if {v0, v1} != {VN, VF}:
+        return False
+    near_var = v0
+    if r0 != 'reduce_max' or r1 != 'reduce_min':
+        problems.append(('slab-entry', 'entry/exit folded with %s/%s, required reduce_max/reduce_min' % (r0, r1)))
+    if j0 != M(tr, LO) or j1 != M(tr, HI):
+        if {j0, j1} <= {M(tr, LO), M(tr, HI)}:
+            problems.append(('slab-entry', 'entry/exit joined with %s/%s, required tRange.lower/tRange.upper' % (show(j0, names), show(j1, names))))
+        else:
+            return False
+    for kd, p in problems:
+        res.bad(R5, 'intersectRayBox (sign-ordered form): ' + p, kd)
+    if problems:
+        return True
+    # near starts as slab(which[near]); it is exchanged with the other slab when the condition holds.  With lower <= upper the
+    # nearer slab is slab(lower) iff the reciprocal is non-negative: the exchange must happen exactly when rcp_safe(dir[i]) < 0
+    near_name = near_var[1]
+    kind, payload = sp
+    swap_when = payload                      # Boolean over dir[i] (order) / negation flag (signbit)
+    need_swap_when_negative = (which[near_name] == LO)
+    pol, why = rcp_safe_policy(tu)
+    if pol is None:
+        res.und(R5, 'intersectRayBox orders the slab distances by `%s` but the sign of rcp_safe(dir) cannot be determined: %s' % (
+            show(lb[0][1], names), why))
+        return True
+    if not forwards_to_rcp_safe_t(tu):
+        res.und(R5, 'rcp_safe(float/double) does not simply forward to rcp_safe_t')
+        return True
+    pk, pp, pdesc = pol
+    cond_txt = show(lb[0][1], names)
+    if kind == 'order' and pk == 'order':
+        x = ('p', 0)
+        fs = subst(swap_when, lambda z: x if z == d_i else None)
+        fr = pp if need_swap_when_negative else ('u', '!', pp)
+        fm = Formula(names=['x'])
+        fm.scan(fs)
+        fm.scan(fr)
+        d = fm.compare(fs, fr)
+        if d is None:
+            res.ok(R5, 'intersectRayBox (sign-ordered form): slabs exchanged when `%s`, which is exactly when rcp_safe(dir[i]) is %s' % (
+                cond_txt, 'negative' if need_swap_when_negative else 'non-negative'))
+        else:
+            res.bad(R5, 'intersectRayBox exchanges the slab distances when `%s`, but the reciprocal it multiplies with is negative under '
+                        'a different condition (rcp_safe: %s): for %s the entry/exit parameters come out reversed' % (cond_txt, pdesc, d),
+                    'slab-sign-agreement')
+        return True
+    if kind == 'signbit' and pk == 'signbit':
+        if (not payload) == need_swap_when_negative:
+            res.ok(R5, 'intersectRayBox (sign-ordered form): slabs exchanged by the sign bit, as rcp_safe selects its sign')
+        else:
+            res.bad(R5, 'intersectRayBox exchanges the slab distances when the sign bit of dir[i] is %s, the opposite of the sign of '
+                        'rcp_safe(dir[i])' % ('clear' if payload else 'set'), 'slab-sign-agreement')
+        return True
+    zero = '-0.0' if (pk == 'signbit') else 'a zero of either sign'
+    res.bad(R5, 'intersectRayBox exchanges the slab distances when `%s` but multiplies with rcp_safe(dir), whose sign follows %s: '
+                'the two disagree for dir[i] == %s (e.g. -0.0 < 0 is false while the reciprocal of -0.0 is negative), so the '
+                'entry parameter exceeds the exit parameter for a ray through the box' % (
+                    cond_txt, pdesc, zero), 'slab-sign-agreement')
+    return True
+
+
+def fam_raybox(res, s, v, tu=None):
     names = s.names
     t = single_return(v)
+    if t is None and tu is not None and raybox_sign_ordered(res, s, v, tu):
+        return
     if t is None or t[0] != 'ctor' or len(t[2]) != 2:
         res.und(R5, 'intersectRayBox: body is not `return range(near, far)`')
         return
@@ -880,7 +1133,7 @@ def classify(tu, f, s, file):
             e = ('b', '*', ('lit', Fraction(1, 2)), ('b', '+', M(a, LO), M(a, HI)))
             return 'size/center', lambda res, s, v: fam_poly(res, s, v, e, 'center')
         if name == 'intersectRayBox' and k == ['vec', 'vec', 'range', 'range']:
-            return 'intersectRayBox', fam_raybox
+            return 'intersectRayBox', lambda res, s, v: fam_raybox(res, s, v, tu)
         return None, None
     return None, None
 
